@@ -5,8 +5,8 @@ import StraxModel.Model.Divider
   Driver ops of the mailbox transition system (shared by C05 / C06 / C13).
 
   `c05.run <rule> <cap> <lazy> <drive> <prog> <workers> <kills> <schedule>`
-     rule     `L` (stale-waiter test of `_can_fetch` compares with the lowest number: the code today) |
-              `H` (uses `_has_msg`: candidate fix of D6); the harness reads it off the source of `_can_fetch`
+     rule     `L` (stale-waiter test of `_can_fetch` compares with the lowest number: the code before fb45a02, D6) |
+              `H` (uses `_has_msg`: the code today); the harness reads it off the source of `_can_fetch`
      cap      `inf` | n
      lazy     0 | 1
      drive    one 0/1 character per subscriber, e.g. `10`
